@@ -111,6 +111,10 @@ where
     /// assert_eq!(arr.get(6), None);
     /// ```
     pub fn get(&self, idx: usize) -> Option<&T> {
+        // The underlying vector might extend past the end of this slice.
+        if idx >= self.len() {
+            return None;
+        }
         self.start.checked_add(idx).and_then(|i| self.vec.get(i))
     }
 
@@ -125,6 +129,9 @@ where
     /// assert_eq!(arr.into_iter().collect::<Vec<_>>(), vec![0, 1, 6, 3, 4, 5]);
     /// ```
     pub fn set(&mut self, idx: usize, elt: T) {
+        if idx >= self.len() {
+            panic!("index {idx} out of bounds, length is {}", self.len());
+        }
         self.vec.set(self.start.checked_add(idx).unwrap(), elt);
     }
 
